@@ -706,6 +706,14 @@ class CallMixin:
                     c = item[1]
                     key, sort = self._seq_key(c.elem, c)
                     st = self.set_seq_items(st, c, self.arbitrary(sort, "hvseq"))
+                elif kind == "set":
+                    v = item[1]
+                    so = elem_sort(v.elem)
+                    key = f"$set${so}"
+                    st = st.copy()
+                    from .smt import store as _store
+                    a = self.heap_array(st, key, INT, f"(Array {so} Bool)")
+                    st.heap[key] = _store(a, v.t, self.arbitrary(f"(Array {so} Bool)", "hvset"))
                 elif kind == "dict":
                     d = item[1]
                     ks, dom, vals = self._dict_keys(d)
